@@ -1,6 +1,7 @@
 import GomlVerif.Lemmas.WtSubst
 import GomlVerif.Lemmas.MonoCollapse
 import GomlVerif.Lemmas.ValTySound
+import GomlVerif.Lemmas.ValTyStore
 /-!
 # C03 — acceptance is type-sound: every stage output is well-typed and closed
 
@@ -167,7 +168,8 @@ concrete type whose dispatch row has the annotated signature, and — when the d
 calls on ANY receiver, in particular `x: T` under a bound `T: Tr` (the only form real Core dumps contain): every row's
 function has a first parameter of a keyable type (scalar of a real width, or a non-generic enum / struct of `S`) with the
 row's key and the trait's method signature at that `Self`; no nominal type is named like a scalar key; `key_determines`
-(`Lemmas/ValTyKey.lean`): the key of a well-typed value determines its type among the keyable types.  Missing: `Ref` / `Vec` / arrays (need a store
+(`Lemmas/ValTyKey.lean`): the key of a well-typed value determines its type among the keyable types.  Arrays and vectors are values (`VT.array`, `VT.vec`): array literals, `array_get` / `array_set`, `vec_new` / `vec_push` /
+`vec_get` / `vec_len`, judged on the shape of the argument and result types (`polyOk`).  Missing: `Ref` (needs a store
 typing), trait objects, `go`, builtins used as values, impls for instances of generic types (`impl Tr for Opt[int32]`: `Sem`'s key is the head name only), trait calls on receivers of parametric type (need injectivity of the dispatch key),
 ANF tags.  Progress (a fragment program is never `stuck`) is not proved.
 
@@ -287,6 +289,15 @@ example : okE tsS tsProg [("o", .app (.enum "Opt") [.int 32 true])] []
 -- ... which `Wt` accepts although `Sem` would read a field of `None`
 example : wt tsS [("o", .app (.enum "Opt") [.int 32 true])]
     (.cget (.enum "Opt" "Some" 1) 0 (.int 32 true) (.var "o" (.app (.enum "Opt") [.int 32 true]))) = true := by decide +kernel
+-- arrays and vectors: `let a = [1, 2]; let v = vec_push(vec_new(), array_get(a, 0)); vec_len(v)`
+example : okE tsS tsProg [] []
+    (.letE "a" (.array (.array 2 (.int 32 true)) [.prim (.int 32 true 1), .prim (.int 32 true 2)])
+      (.letE "v" (.call (.vec (.int 32 true)) (.var "vec_push" (.func [.vec (.int 32 true), .int 32 true] (.vec (.int 32 true))))
+          [.call (.vec (.int 32 true)) (.var "vec_new" (.func [] (.vec (.int 32 true)))) [],
+           .call (.int 32 true) (.var "array_get" (.func [.array Gen.arrayWildcardLen (.int 32 true), .int 32 true] (.int 32 true)))
+             [.var "a" (.array 2 (.int 32 true)), .prim (.int 32 true 0)]])
+        (.call (.int 32 true) (.var "vec_len" (.func [.vec (.int 32 true)] (.int 32 true))) [.var "v" (.vec (.int 32 true))]))) = true := by
+  decide +kernel
 -- weakness (2): `Wt` accepts a struct constructor annotated with the ENUM type of the same name (`nominalArgs` looks at the name only)
 example : wt { tsS with enums := [] } [] (.constr (.struct "S") (.enum "S") [.prim (.int 32 true 1)]) = true ∧
     ctorTyOk (.struct "S") (.enum "S") = false := by decide +kernel
